@@ -16,6 +16,13 @@ def payload_sweep(ctx, execs):
             for k in range(1 if ctx.quick else 4):
                 items.append((p, {"seed": 140 + k, "ext": {q: ["SUCCEEDED", payload] for q in paths}, "max_inv": 12,
                                   "ext_order": "ext_first", "api_latency": [0.0, 0.3][k % 2]}))
+    # the external party completes the callback WHILE the invocation that created it is still running (between create_callback and
+    # result()), at every scheduling step of the code in between: the completion reaches the SDK in the answer of whichever
+    # checkpoint call comes next (synchronous or fire-and-forget)
+    mid = {"nodes": [{"k": "cb", "between": [{"k": "step", "dur": 0.3}, {"k": "step"}]}, {"k": "step"}]}
+    for at in range(4, 160, (12 if ctx.quick else 3)):
+        for lat in (0.0, 0.05):
+            items.append((mid, {"seed": 150 + at, "ext_mid": [[at, "1", "SUCCEEDED", "mid-payload"]], "api_latency": lat, "max_inv": 12}))
     out = run_campaign(ctx, items)
     for e in out:
         oracles.c14(ctx, e)
